@@ -127,7 +127,10 @@ impl LibPanic {
             .unwrap_or(file);
         let mut norm = String::new();
         let mut last_digit = false;
-        for c in msg.chars().take(80) {
+        for c in msg.chars().take(60) {
+            if c == '`' || c == '\n' {
+                break;
+            }
             if c.is_ascii_digit() {
                 if !last_digit {
                     norm.push('N');
@@ -653,6 +656,16 @@ pub fn finish(spec: &Spec, result: RunResult, started: Instant) -> i32 {
         samples.push(json!("no non-trivial case was rendered in this run"));
     }
     let labels: BTreeMap<String, u64> = acc.labels.clone();
+    // very long counter tables (e.g. one entry per call class) are cut to the 300 largest
+    let mut counters: BTreeMap<String, u64> = acc.counters.clone();
+    let counter_entries = counters.len();
+    if counters.len() > 300 {
+        let mut v: Vec<(String, u64)> = counters.into_iter().collect();
+        v.sort_by(|a, b| b.1.cmp(&a.1).then(a.0.cmp(&b.0)));
+        let rest: u64 = v[300..].iter().map(|x| x.1).sum();
+        counters = v.into_iter().take(300).collect();
+        counters.insert(format!("(other {} entries)", counter_entries - 300), rest);
+    }
     let mut coverage = json!({
         "evaluations": acc.evaluations,
         "cases": acc.cases,
@@ -661,7 +674,8 @@ pub fn finish(spec: &Spec, result: RunResult, started: Instant) -> i32 {
         "rule": spec.rule,
         "samples": samples,
         "labels": labels,
-        "counters": acc.counters,
+        "counters": counters,
+        "counter_entries": counter_entries,
         "discards": acc.discards,
         "known_finding_hits": acc.known_hits,
         "workers": spec.workers,
